@@ -18,7 +18,10 @@ RULE = ("a case = (graph spec, format configuration). Graph specs: one determini
         "from SIGMA17 as well. Configurations: binary versions 1-5 x unicode mode ascii/format/silent; KeyValues2 text x "
         "unicode mode x flat x cull_uuid. Values are inside the wire types (int32, float32 patterns without NaN, "
         "angles in [0,360), time = k/10000). KV1 bridge: random Keyvalues trees (depth <= 3, duplicate / reserved / "
-        "mixed-case names, empty blocks, root or named top, leaf top). Non-trivial = graph has more than one element "
+        "mixed-case names, empty blocks, root or named top, leaf top). Sessions: 4-8 export/parse calls in one process over a "
+        "family of related graphs (the same graph again, the same UUIDs with other names, partial graphs in which some elements "
+        "are replaced by stub references to their UUIDs), binary and text interleaved; after every call the result is compared "
+        "with the same call made in a pristine (forked) interpreter and every tree built or returned earlier is re-dumped. Non-trivial = graph has more than one element "
         "or a non-string attribute; distinct by (spec, configuration) content.")
 TRUSTED = ["model: C14.encodeBin / C14.decodeBin / C14.encodeType / C14.decodeType / string table / fromKv1 / toKv1 "
            "(lean/Srctools/Model/C14.lean) and the KV2 emitter/reader (Model/C14Kv2.lean); tables regenerated from dmx.py by "
@@ -488,6 +491,190 @@ def _kv2_compare(ctx, case, cfg, res, emitted, it):
         ctx.disagree(case, res['parse_exc'] + ': ' + res['parse_msg'], 'model parses', 'Element.parse fails where the model parses')
 
 
+# ----------------------------------------------------------------------------- sessions (history independence)
+
+class Pristine:
+    """Client of harness/c14_worker.py: every call is answered from a pristine interpreter state."""
+
+    def __init__(self):
+        import subprocess, sys, pathlib, os
+        env = dict(os.environ)
+        self.p = subprocess.Popen([sys.executable, str(pathlib.Path(__file__).with_name('c14_worker.py'))],
+                                  stdin=subprocess.PIPE, stdout=subprocess.PIPE, text=True, env=env)
+
+    def ask(self, req):
+        self.p.stdin.write(json.dumps(req) + '\n')
+        self.p.stdin.flush()
+        line = self.p.stdout.readline()
+        if not line:
+            raise RuntimeError('pristine worker died')
+        return json.loads(line)
+
+    def call(self, spec, cfg):
+        r = self.ask({'op': 'call', 'spec': spec, 'cfg': cfg})
+        if 'data' in r:
+            r['data'] = r['data'].encode('latin1')
+        return r
+
+    def session(self, steps):
+        return self.ask({'op': 'session', 'steps': steps}).get('fail')
+
+    def close(self):
+        try:
+            self.p.stdin.close()
+            self.p.wait(timeout=10)
+        except Exception:
+            self.p.kill()
+
+
+def call_keep(spec, cfg):
+    """roundtrip() that also returns the live objects: (result dict, original root, parsed root | None)."""
+    Element = _impl()
+    elems = G.build(spec)
+    root = elems[0]
+    res = {'orig': G.canon(root)}
+    buf = io.BytesIO()
+    try:
+        if cfg['fmt'] == 'binary':
+            root.export_binary(buf, version=cfg['v'], unicode=cfg['mode'])
+        else:
+            root.export_kv2(buf, flat=cfg['flat'], cull_uuid=cfg['cull'], unicode=cfg['mode'])
+    except Exception as e:
+        res['export_exc'] = type(e).__name__
+        res['export_msg'] = str(e)[:200]
+        return res, root, None
+    res['data'] = buf.getvalue()
+    parsed = None
+    try:
+        parsed, fmt_name, fmt_ver = Element.parse(io.BytesIO(res['data']), unicode=(cfg['mode'] == 'silent'))
+        res['parsed'] = G.canon(parsed)
+        res['fmt'] = [fmt_name, fmt_ver]
+    except Exception as e:
+        res['parse_exc'] = type(e).__name__
+        res['parse_msg'] = str(e)[:200]
+    return res, root, parsed
+
+
+def _same_as_pristine(cfg, res, pr):
+    """None, or how the in-session result differs from the pristine result of the same call."""
+    for k in ('export_exc', 'parse_exc'):
+        if res.get(k) != pr.get(k):
+            return f'{k}: {res.get(k)} in the session, {pr.get(k)} in a pristine state'
+    if res.get('data') != pr.get('data'):
+        return 'exported bytes differ from the pristine export of the same graph'
+    if 'parsed' in res:
+        keep = None
+        if cfg['fmt'] == 'kv2' and cfg['cull']:
+            keep = kv2_roots(res['orig'], cfg['flat'])        # other UUIDs are freshly generated by each parse
+        d = G.approx_equal(pr['parsed'], res['parsed'], keep_uuid=keep, tol=0)
+        if d:
+            return f'parsed graph differs from the pristine parse of the same bytes: {d}'
+    return None
+
+
+def check_session(steps, pristine):
+    """Run the calls of a session one after the other in THIS process. After every call: the property
+    (judge), equality with the same call made in a pristine state (if `pristine`), and no change in
+    any tree built or returned by an earlier call. Returns None or [step index, key, text]."""
+    live = []
+    for k, st in enumerate(steps):
+        spec, cfg = st['spec'], st['cfg']
+        try:
+            res, root, parsed = call_keep(spec, cfg)
+        except Exception as e:
+            return [k, 'session:harness', f'{type(e).__name__}: {e}'[:200]]
+        j = judge(spec, cfg, res)
+        if j:
+            return [k, 'session:' + j[0], f'step {k} {cfg}: {j[1]}']
+        if pristine is not None:
+            d = _same_as_pristine(cfg, res, pristine.call(spec, cfg))
+            if d:
+                return [k, 'session:history-dependent', f'step {k} {cfg}: {d}']
+        for k0, what, obj, snap in live:
+            try:
+                now = G.canon(obj)
+            except Exception as e:
+                now = f'{type(e).__name__}: {e}'
+            if now != snap:
+                d = G.approx_equal(snap, now, tol=0) if isinstance(now, dict) else now
+                return [k, 'session:earlier-tree-mutated', f'the {what} tree of step {k0} changed during step {k} {cfg}: {d}']
+        live.append((k, 'exported', root, res['orig']))
+        if parsed is not None:
+            live.append((k, 'parsed', parsed, res['parsed']))
+    return None
+
+
+def stubify(spec, victims):
+    """The partial graph: the elements in `victims` are excluded from the file; every reference to one of
+    them becomes a stub reference carrying its UUID."""
+    s = copy.deepcopy(spec)
+    for e in s['elems']:
+        for a in e['attrs']:
+            if a['t'] == 'ELEMENT':
+                a['vals'] = [['s', spec['elems'][v[1]]['uuid']] if v[0] == 'i' and v[1] in victims else v for v in a['vals']]
+    return s
+
+
+def renamed(spec, rng):
+    """Same UUIDs and shape, other names / one more attribute: distinguishes an element from its namesake
+    of another parse."""
+    s = copy.deepcopy(spec)
+    for i, e in enumerate(s['elems']):
+        e['name'] = 'renamed%d' % i
+        e['attrs'].append({'name': 'gen2', 't': 'INTEGER', 'arr': False, 'vals': [rng.randrange(1000)]})
+    return s
+
+
+def gen_session(rng, base):
+    n = len(base['elems'])
+    reach = sorted(reachable(base) - {0})
+    variants = [base, base, renamed(base, rng)]
+    if reach:
+        for _ in range(2):
+            k = rng.randrange(1, len(reach) + 1)
+            variants.append(stubify(base, set(rng.sample(reach, k))))
+        variants.append(stubify(renamed(base, rng), set(rng.sample(reach, 1))))
+    cfgs = [{'fmt': 'kv2', 'mode': 'format', 'flat': f, 'cull': c} for f in (False, True) for c in (False, False, True)] + \
+           [{'fmt': 'binary', 'v': v, 'mode': 'format'} for v in (2, 5)]
+    steps = [{'spec': base, 'cfg': rng.choice(cfgs[:6])}]
+    for _ in range(rng.randrange(3, 8)):
+        steps.append({'spec': rng.choice(variants), 'cfg': rng.choice(cfgs)})
+    return steps
+
+
+def run_sessions(ctx, n_sessions):
+    """Sessions over related graphs; a failing session becomes a witness (shrunk over its steps in a
+    pristine process)."""
+    rng = ctx.rng
+    pr = Pristine()
+    found = {}
+    try:
+        bases = [G.all_types_spec('x')]
+        for i in range(n_sessions):
+            if i % 3 == 0 or len(bases) < 2:
+                bases.append(G.gen_spec(rng, PROFILES[i % 2]))
+            steps = gen_session(rng, rng.choice(bases[-3:]))
+            ctx.count('session')
+            ctx.count('session-steps', len(steps))
+            f = check_session(steps, pr if i % 2 == 0 or ctx.thorough else None)
+            if f and f[1] not in found:
+                k, key, text = f
+                small = steps[:k + 1]
+                # shrink the history in a pristine process, keeping the failing call last
+                def fails(prefix):
+                    r = pr.session(list(prefix) + [small[-1]])
+                    return bool(r) and r[1] == key
+                if len(small) > 2 and fails(small[:-1]):
+                    small = ddmin(small[:-1], fails, budget=40) + [small[-1]]
+                elif len(small) > 1 and pr.session([small[-1]]) and pr.session([small[-1]])[1] == key:
+                    small = [small[-1]]
+                found[key] = (text, small)
+    finally:
+        pr.close()
+    for key, (text, small) in found.items():
+        ctx.witness(key, f'session of {len(small)} export/parse calls in one process: {text}', {'session': small})
+
+
 # ----------------------------------------------------------------------------- search
 
 def _shrink(spec, cfg, key):
@@ -542,6 +729,8 @@ def search(ctx):
         small = _shrink(spec, cfg, key)
         j2 = judge(small, cfg, roundtrip(small, cfg)) or (key, what)
         ctx.witness(key, f'{cfg}: {j2[1]}', {'spec': small, 'cfg': cfg})
+    # sessions: several export/parse calls in one process over related graphs
+    run_sessions(ctx, ctx.budget(60, 600))
     # KV1 bridge directly on the implementation, also through a DMX file
     rng = ctx.rng
     kseen = set()
@@ -562,6 +751,10 @@ def search(ctx):
 
 def replay(ctx, payload):
     inp = payload.get('input') or {}
+    if 'session' in inp:
+        f = check_session(inp['session'], None)
+        print(f'session of {len(inp["session"])} calls ->', f or 'every call ok, earlier trees unchanged')
+        return f is None
     if 'spec' in inp:
         res = roundtrip(inp['spec'], inp['cfg'])
         j = judge(inp['spec'], inp['cfg'], res)
@@ -577,6 +770,8 @@ def replay(ctx, payload):
 
 def replay_known(ctx, finding):
     w = finding.get('witness') or {}
+    if 'session' in w:
+        return check_session(w['session'], None) is not None
     if 'spec' in w:
         return judge(w['spec'], w['cfg'], roundtrip(w['spec'], w['cfg'])) is not None
     if 'kv1' in w:
